@@ -46,6 +46,32 @@ def _sum_terms(fn, e, depth=0):
     return [e]
 
 
+def no_member_after_handler(run, ol, tag):
+    """The user's completion handler may cancel() or destroy the resolver (shared with C12/C04): once on_lookup has
+    invoked it, no path touches a member of the resolver again - neither the queue (emptied by a cancel() from inside the
+    handler: front() of an empty vector) nor the timer (freed with the object)."""
+    fx = run.fx
+    inv = [f for f in handlers.flows_in(fx, ol) if f.kind == 'invoke']
+    cfg = ol.cfg
+    for f in inv:
+        pf = cfg.node_pos(f.site)
+        late = []
+        for n in ol.all_nodes():
+            if not ((n['k'] == 'member' and n.get('mk') == 'field' and q.is_this(q.access_root(n))) or n['k'] == 'this'):
+                continue
+            if any(x is n for x in walk(f.site)):
+                continue
+            pn = cfg.node_pos(n)
+            if pf is None or pn is None:
+                continue
+            after = (pn[0] == pf[0] and pn[1] > pf[1]) or (pn[0] in cfg.reach_from(pf[0]))
+            if after:
+                late.append(n)
+        run.check(not late, 'R15', 'no-member-after-handler', '%s<%s>' % (ol.norm, tag), ol.loc(late[0]) if late else ol.loc(f.site),
+                  'on_lookup reads %s after invoking the user\'s handler: a handler that calls cancel() leaves the queue empty (front() of an empty vector), one that destroys the resolver leaves `this` dangling (use after free)'
+                  % sorted({q.render(ol, n) for n in late})[:4], 'nothing of *this is touched after the handler has been invoked')
+
+
 def check(run):
     fx = run.fx
     ars = fx.fn(R + '::async_resolve')
@@ -213,7 +239,9 @@ def check(run):
                 if len(ds_) == 1:
                     return q.eval3(ds_[0][1], lambda x: remain(x, depth + 1))
             return v_
-        run.check(bool(inv) and bool(arms) and not any(q.exit_reachable_under(ol, f.site, arms, remain) for f in inv), 'R10', 'resolver-timer', '%s<%s>' % (ol.norm, tag), ol.loc(), 'after serving an entry the timer is not re-armed for the next one on every path where the queue is non-empty', 're-armed unless empty')
+        starts = er[:1] or [f.site for f in inv]        # from the pop: the re-arm may come before or after the handler is invoked
+        run.check(bool(inv) and bool(arms) and not any(q.exit_reachable_under(ol, s_, arms, remain) for s_ in starts), 'R10', 'resolver-timer', '%s<%s>' % (ol.norm, tag), ol.loc(), 'after serving an entry the timer is not re-armed for the next one on every path where the queue is non-empty', 're-armed unless empty')
+        no_member_after_handler(run, ol, tag)
         ed = [v for n in ol.all_nodes() if n['k'] == 'decl' for v in n['vars'] if v.get('init') is not None and 'bool' in ol.ty(v['t']) and 'm_queue.' in q.render(ol, v['init'])]
         if ed:
             run.check(q.render(ol, q.strip_casts(ed[0]['init'])).replace('!', '') in ('m_queue.empty()', 'm_queue.size()') and all(q.precedes(ol, er[0], n) for n in ol.all_nodes() if n['k'] == 'decl' and any(v is ed[0] for v in n['vars'])) if er else False,
